@@ -2340,6 +2340,8 @@ func (c *Ctx) modeDecisionsRule(rule string) {
 					seenPhi[ph] = true
 				}
 				switch t := v.(type) {
+				case *ssa.FieldAddr, *ssa.Alloc:
+					return true, "" // an address (which field a mode character maps to): no text involved
 				case *ssa.Const, *ssa.Parameter:
 					// a boolean or byte parameter of a helper (the sign, the mode character)
 					if isStringType(t.Type()) {
@@ -2490,6 +2492,11 @@ func (c *Ctx) joinQueriesRule(rule string) {
 			fn   *ssa.Function
 		}{{"MODE", modeFn}, {"WHO", whoFn}} {
 			ok, bad := AllPathsPass(at, false, func(x ssa.Instruction) bool { return c.mustCall(x, q.fn, map[*ssa.Function]bool{}) })
+			if !ok && dc.Site.Parent() != h {
+				// the channel is created in a helper: the queries may follow it there
+				ok2, _ := AllPathsPass(dc.Site, false, func(x ssa.Instruction) bool { return c.mustCall(x, q.fn, map[*ssa.Function]bool{}) })
+				ok = ok2
+			}
 			why := "every path after the channel is created sends " + q.name
 			if !ok {
 				why = "the return at " + c.InstrPos(bad) + " is reached without " + q.name + " having been sent"
